@@ -280,12 +280,17 @@ type ref struct {
 	m   map[string]*rent
 	now int64
 	d   int64 // default lifetime of implicitly created lists / hashes / counters (model ms)
+	// known deviations of redis.Storage, switched on only to ATTRIBUTE a failure already found against the plain reference
+	quirk map[string]bool
+	scale int64
 }
+
+var redisQuirks = []string{"sethash-on-single-field-resets-deadline", "incrby-result-equals-delta-resets-deadline", "cas-ttl-truncated-to-seconds"}
 
 func newRef(d int64) *ref { return &ref{m: map[string]*rent{}, now: 1000, d: d} }
 
 func (r *ref) clone() *ref {
-	c := &ref{m: make(map[string]*rent, len(r.m)), now: r.now, d: r.d}
+	c := &ref{m: make(map[string]*rent, len(r.m)), now: r.now, d: r.d, quirk: r.quirk, scale: r.scale}
 	for k, e := range r.m {
 		ne := &rent{exp: e.exp}
 		switch v := e.v.(type) {
@@ -399,6 +404,9 @@ func (r *ref) step(o opIn) obs {
 		}
 		if h, ok := e.v.(map[string]any); ok {
 			h[o.F] = goVal(o.V)
+			if r.quirk["sethash-on-single-field-resets-deadline"] && len(h) == 1 {
+				e.exp = r.now + r.d
+			}
 		} else {
 			e.v = map[string]any{o.F: goVal(o.V)}
 		}
@@ -438,6 +446,9 @@ func (r *ref) step(o opIn) obs {
 		}
 		if c, ok := e.v.(int64); ok {
 			e.v = c + o.N
+			if r.quirk["incrby-result-equals-delta-resets-deadline"] && c+o.N == o.N {
+				e.exp = r.now + r.d
+			}
 			return obs{"i", c + o.N}
 		}
 		return obs{"it"}
@@ -463,6 +474,9 @@ func (r *ref) step(o opIn) obs {
 		return obs{"b", true}
 	case "cas":
 		old := goVal(o.Old)
+		if r.quirk["cas-ttl-truncated-to-seconds"] && r.scale > 0 {
+			o.TTL = (o.TTL * r.scale / 1000) * 1000 / r.scale
+		}
 		if e == nil {
 			if old == nil {
 				r.m[o.K] = &rent{v: goVal(o.V), exp: r.deadline(o.TTL)}
@@ -695,6 +709,36 @@ func runRedis(c caseIn) *caseOut {
 		if !tainted && emptyCollection(r.m[o.K]) {
 			tainted = true
 			out.ShapeEnd = i
+		}
+	}
+	if !out.PropOK {
+		// is the whole observed history explained by ONE known deviation of redis.Storage (or by all of them)?
+		try := append([][]string{}, [][]string{{redisQuirks[0]}, {redisQuirks[1]}, {redisQuirks[2]}, redisQuirks}...)
+		for _, qs := range try {
+			q := newRef(defaultTTLms() / scale)
+			q.scale = scale
+			q.quirk = map[string]bool{}
+			for _, n := range qs {
+				q.quirk[n] = true
+			}
+			ok := true
+			for i, o := range c.Ops {
+				want := q.step(o)
+				if o.Op != "tick" && canon(projRedis(o.Op, want)) != canon(out.Obs[i]) {
+					ok = false
+					break
+				}
+				if out.ShapeEnd == i {
+					break
+				}
+			}
+			if ok {
+				out.PropKey = "redis:" + qs[0]
+				if len(qs) > 1 {
+					out.PropKey = "redis:several-known-deviations"
+				}
+				break
+			}
 		}
 	}
 	return out
